@@ -55,7 +55,27 @@ func displayName(pkgPath, key string) string {
 	return short + "." + key
 }
 
+// VerifyFunc runs the symbolic execution twice: the first pass only collects the set of heap arrays the
+// function may write (needed to havoc completely at loop heads and coarse frames), the second generates obligations.
 func VerifyFunc(P *Program, c *Contract, maxPaths int) (res *FuncResult) {
+	touchedKeys = map[string]bool{}
+	first := verifyFuncPass(P, c, maxPaths, nil)
+	if first.Err != "" && first.fv == nil {
+		return first
+	}
+	touched := map[string]bool{}
+	for k := range touchedKeys {
+		touched[k] = true
+	}
+	if first.fv != nil {
+		for _, o := range first.fv.obls {
+			_ = o
+		}
+	}
+	return verifyFuncPass(P, c, maxPaths, touched)
+}
+
+func verifyFuncPass(P *Program, c *Contract, maxPaths int, touched map[string]bool) (res *FuncResult) {
 	res = &FuncResult{Name: displayName(c.Pkg, c.Key), Pkg: c.Pkg, Key: c.Key, Mode: c.Mode, Pos: c.Pos}
 	fn := P.FindFunc(c.Pkg, c.Key)
 	if fn == nil {
@@ -64,7 +84,7 @@ func VerifyFunc(P *Program, c *Contract, maxPaths int) (res *FuncResult) {
 	}
 	fv := &FV{P: P, fn: fn, c: c, l: layout{c.Mode}, pkgPath: c.Pkg, name: res.Name,
 		ordinals: map[string]map[ssa.Instruction]int{}, trusted: map[string]bool{}, inlined: map[string]bool{},
-		maxPaths: maxPaths, sentinel: map[string]int{}, used: map[string]bool{}}
+		maxPaths: maxPaths, sentinel: map[string]int{}, used: map[string]bool{}, touched: touched}
 	defer func() {
 		if r := recover(); r != nil {
 			if ee, ok := r.(execError); ok {
@@ -134,6 +154,7 @@ func VerifyFunc(P *Program, c *Contract, maxPaths int) (res *FuncResult) {
 	eenv := *env
 	eenv.st = fv.entry
 	st.mods = append(st.mods, eenv.evalEach(c.ModEach)...)
+	st.mods = append(st.mods, eenv.evalAllExcept(c.ModAll)...)
 	fv.entry.mods = st.mods
 	res.Vacuity = &Obligation{Func: fv.name, Kind: "requires-satisfiable", Name: fv.name + " / requires-satisfiable", Assump: append([]*Term(nil), st.pc...), Goal: nil, Pos: c.Pos}
 	outs := fv.execBody(fr, st, args, nil)
